@@ -45,7 +45,9 @@ class _OtherDenied07(_OtherHier07):     # the same code in an unrelated hierarch
     message = 'other'
 
 
-VALS = [None, 0, 'x', [1, 'a'], {'k': None}, 1.5, {}, '', False]
+VALS = [None, 0, 'x', [1, 'a'], {'k': None}, 1.5, {}, '', False,
+        # a dict whose keys are of several JSON-legal python types (a histogram with a total): travels as {"1": .., "b": ..}
+        {1: 'one', 'b': [2]}]
 ARGSHAPES = ['none', 'p1', 'p2', 'n1', 'n2']
 
 
@@ -123,6 +125,11 @@ class Served:
             log.append(('lerr', a, b))
             raise pjrpc.exceptions.DeserializationError(MARK)
 
+        def hist(a='da', b='db'):
+            # the function itself builds a dict with keys of several types
+            log.append(('hist', a, b))
+            return {1: a, 2.5: [b], None: 0, 'total': b}
+
         def uerr(a='da', b='db'):
             log.append(('uerr', a, b))
             raise JsonRpcError(4444, 'untyped')
@@ -165,7 +172,7 @@ class Served:
         def bump(a='da', b='db'):
             return Tally().bump(a, b)       # the oracle: a fresh view object serves every request
 
-        self.funcs = dict(echo=echo, terr=terr, ferr=ferr, herr=herr, uerr=uerr, lerr=lerr, boom=boom, _echo=echo, __x=echo,
+        self.funcs = dict(hist=hist, echo=echo, terr=terr, ferr=ferr, herr=herr, uerr=uerr, lerr=lerr, boom=boom, _echo=echo, __x=echo,
                           deca=deca, decb=decb, bump=bump)
 
     def register(self, disp, is_async):
@@ -233,6 +240,7 @@ class Served:
 def direct(served, method, args, kwargs):
     """the oracle: a direct python call -> ('ok', normalised value) | ('rpc', cls, code, message, data) | ('server',)"""
     n0 = len(served.log)
+    args, kwargs = json.loads(json.dumps(list(args))), json.loads(json.dumps(kwargs))      # arguments arrive JSON-normalised
     try:
         v = served.funcs[method](*args, **kwargs)
         out = ('ok', json.loads(json.dumps(v)))
@@ -353,7 +361,7 @@ def check_request_doc(text, calls):
             return 'not a valid request object: %r' % (e,), None
         if e['method'] != m:
             return 'method %r instead of %r' % (e['method'], m), None
-        want = list(a) if a else (dict(kw) if kw else None)
+        want = json.loads(json.dumps(list(a) if a else (dict(kw) if kw else None)))
         got = e.get('params')
         if (got or None) != want or (want is not None and not typed_eq(got, want)):
             return 'params %r instead of %r' % (got, want), None
@@ -628,7 +636,7 @@ def gen_cases(ctx):
     for pair in pairs:
         for idgen in IDGENS:
             for strict in (True, False):
-                for method in ('echo', 'terr', 'ferr', 'herr', 'uerr', 'lerr', 'boom', '_echo', '__x', 'deca', 'decb', 'bump'):
+                for method in ('echo', 'terr', 'ferr', 'herr', 'uerr', 'lerr', 'boom', '_echo', '__x', 'deca', 'decb', 'bump', 'hist'):
                     for shape in ARGSHAPES:
                         for vi in (range(len(VALS)) if shape != 'none' else [0]):
                             if idgen not in ('sequential', 'sequential0', 'randint12') and vi > 1:
@@ -639,7 +647,9 @@ def gen_cases(ctx):
     for pair in e2e_pairs:
         for idgen in ('sequential', 'sequential0'):
             for strict in (True, False):
-                for method in ('echo', 'terr', 'ferr', 'herr', 'uerr', 'lerr', 'boom', '_echo', '__x', 'bump'):
+                for method in ('echo', 'terr', 'ferr', 'herr', 'uerr', 'lerr', 'boom', '_echo', '__x', 'bump', 'hist'):
+                    if method == 'hist' and pair[1] == 'flask':
+                        continue          # flask's dumper sorts keys: known finding F-C18-6 (C18)
                     for shape in ARGSHAPES:
                         for vi in (range(len(VALS)) if shape != 'none' else [0]):
                             if (idgen != 'sequential' or not strict) and vi > 1:
